@@ -71,6 +71,7 @@ let runners : (string * (z list -> z list)) list = [
   "sol", run_sol;
   "buf", run_buf;
   "lim", run_lim;
+  "skip", run_skip;
   "fnode", run_fnode;
   "pull", run_pull;
   "mon", run_mon;
